@@ -95,6 +95,17 @@ def check_tx(case):
         }
         re1 = attempt(gen_tx.build_with_lib, bits.tx, ptx, txref.ser_witness)
         f.expect(not raised(re1) and re1 == raw, f"reser/ne-original/{prim}", repr(re1)[:120])
+        # (c') the other return form: include_raw=True adds the transaction's own bytes and changes nothing else
+        res_raw = attempt(bits.tx.tx_deser, raw + trailing, include_raw=True)
+        if raised(res_raw):
+            f.add(f"deser-include-raw/raises-{res_raw.kind}/{prim}", res_raw)
+        else:
+            d2, left2 = res_raw
+            gotraw = d2.get("raw") if isinstance(d2, dict) else None
+            f.expect(gotraw == raw.hex(), f"deser-include-raw/raw-ne-serialised-transaction/{prim}",
+                     f"raw of {len(gotraw) // 2 if isinstance(gotraw, str) else gotraw!r} bytes, transaction has {len(raw)}, {len(trailing)} trailing")
+            rest = {k: v for k, v in d2.items() if k != "raw"} if isinstance(d2, dict) else d2
+            f.expect(rest == {k: v for k, v in d.items() if k != "raw"} and left2 == trailing, f"deser-include-raw/other-fields-differ/{prim}", repr(rest)[:160])
         # (d) the caller owns what it was handed: editing that result must not change what the next parse returns
         if not f:
             snap = copy.deepcopy(d)
